@@ -80,6 +80,29 @@ pub fn run(ctx: &Ctx) -> i32 {
             cfgs: gen::cfgs(&[ALL_MODES, common::NO_ASCII, 0x3f & !0x20], &[d, s144], &[true], &[false]),
         },
         Part {
+            name: "ES-O short prefix run + long run of another class",
+            family: {
+                let units: Vec<&[u8]> = vec![b"A", b"a", b"1", b"*", b"*\r>", &[0x80], b"~", b" ", b"A1", b"ABC"];
+                let mut l = Vec::new();
+                for (i, u1) in units.iter().enumerate() {
+                    for (j, u2) in units.iter().enumerate() {
+                        if i == j {
+                            continue;
+                        }
+                        for k1 in [1usize, 2, 3, 4, 6, 8, 12] {
+                            for k2 in ctx.tier.pick(vec![60usize, 200, 600], vec![60usize, 200, 600, 2000]) {
+                                let mut v: Vec<u8> = u1.iter().cycle().take(k1).cloned().collect();
+                                v.extend(u2.iter().cycle().take(k2));
+                                l.push(v);
+                            }
+                        }
+                    }
+                }
+                Family::list(l)
+            },
+            cfgs: gen::cfgs(&[ALL_MODES, common::NO_ASCII, 0x0b, 0x1d], &[d], &[true], &[false]),
+        },
+        Part {
             name: "ES-E fills at maximal lengths",
             family: Family::Periodic { patterns: gen::es_e_patterns(), lengths: vec![1555, 2335, 3000, 3116, 3117, 4000] },
             cfgs: gen::cfgs(&mq, &[d, a, s144], &[true], &[false]),
